@@ -60,6 +60,7 @@ def corpus_items(tier):
             items.append({"id": "corpus/%s/gaps%d" % (name, int(gaps)), "type": "file", "path": path,
                           "find_gaps": gaps, "v2": not gaps, "v2_repeat": small or thorough,
                           "cli": (not gaps) or thorough, "cli_repeat": small or thorough,
+                          "lib": (not gaps) and (os.path.getsize(path) < 250_000 or thorough),
                           "cli_variants": ["-a", "-e", ""] if thorough else ["-a"],
                           "cost": os.path.getsize(path) * (3 if name.endswith(".gz") else 1)})
     return items
@@ -93,7 +94,7 @@ def tool_items(tier):
 
 
 ADAPTER_FILES = ["1ehz-assembly-1.cif", "1ehz-assembly-1.cif", "488d.pdb", "1a9n.cif", "1JJP.cif", "6FC9.cif",
-                 "1A1T_1_B.cif", "1ATO.pdb", "1E7K_1_C.cif", "184D.cif", "4qln.pdb", "8btk_B7.cif",
+                 "1A1T_1_B.cif", "1ATO.pdb", "1E7K_1_C.cif", "184D.cif", "4qln.pdb",
                  "q-ugg-5k-salt_400-500ns_frame1065.pdb", "4gqj-assembly1.cif"]
 
 
